@@ -7,10 +7,14 @@ import (
 	"encoding/binary"
 	"encoding/json"
 	"fmt"
+	"io"
+	"os"
+	"path/filepath"
 	"runtime"
 	"runtime/debug"
 	"sort"
 	"strings"
+	"syscall"
 	"testing"
 	"time"
 
@@ -545,7 +549,8 @@ type c08Job struct {
 	Index    int
 	Depth    int
 	Cuts     int
-	From, To int // range of fragmentation indexes handled by this job (0 = uncut, then 1-cuts, then 2-cuts)
+	From, To int    // range of fragmentation indexes handled by this job (0 = uncut, then 1-cuts, then 2-cuts)
+	ErrFile  string // deep jobs: the worker's stderr is redirected here so that the coordinator can read how it died
 }
 
 // numRuns = number of fragmentations of a stream of n bytes.
@@ -720,6 +725,11 @@ func c08Work(job core.Job) json.RawMessage {
 		w.allCuts(c08ExtMax, st, j.Cuts >= 2 && len(st) <= c08TwoCutMax, j.From, j.To, rankBase, "extended message: "+s.Name, "ext."+cls)
 	case "deep":
 		// real default max message size; nesting as deep as the payload allows
+		if j.ErrFile != "" {
+			if f, err := os.Create(j.ErrFile); err == nil {
+				syscall.Dup2(int(f.Fd()), 2)
+			}
+		}
 		payload := "d1:x" + strings.Repeat("l", j.Depth)
 		if 2*j.Depth+5 <= realMax-1 {
 			payload = "d1:x" + nest("l", "e", j.Depth, "") + "e"
@@ -805,8 +815,12 @@ func TestC08Reader(t *testing.T) {
 		depths = []int{100000, 500000, 1000000, 2000000, 4000000, 8000000, realMax/2 - 4, realMax - 6}
 	}
 	firstDeep := len(jobs)
+	errDir, err := os.MkdirTemp(os.Getenv("VERIF_TMP"), "leafc08err")
+	if err != nil {
+		core.HarnessError("%v", err)
+	}
 	for _, d := range depths {
-		addJob(c08Job{Kind: "deep", Depth: d}, fmt.Sprintf("deep nesting %d", d))
+		addJob(c08Job{Kind: "deep", Depth: d, ErrFile: filepath.Join(errDir, fmt.Sprintf("deep-%d.stderr", d))}, fmt.Sprintf("deep nesting %d", d))
 		rep.CountDistinct(fmt.Sprintf("deep:%d", d))
 	}
 	results := core.RunSharded("TestC08Reader", jobs, 120*time.Second, "GOTRACEBACK=single")
@@ -827,16 +841,28 @@ func TestC08Reader(t *testing.T) {
 			var j c08Job
 			json.Unmarshal(jobs[r.ID].Data, &j)
 			cause := "other"
-			if strings.Contains(r.Crash, "stack overflow") || strings.Contains(r.Crash, "goroutine stack exceeds") ||
-				(strings.Contains(r.Crash, "zeebo/bencode") && (strings.Contains(r.Crash, "decodeList") || strings.Contains(r.Crash, "decodeInto"))) {
-				cause = "bencode-nesting-stack-overflow"
+			crashOut := r.Crash
+			if j.ErrFile != "" {
+				if f, err := os.Open(j.ErrFile); err == nil {
+					head := make([]byte, 24<<10)
+					n, _ := io.ReadFull(f, head)
+					f.Close()
+					if n > 0 {
+						crashOut = string(head[:n])
+					}
+				}
+			}
+			if strings.Contains(crashOut, "stack overflow") || strings.Contains(crashOut, "goroutine stack exceeds") {
+				cause = "stack-overflow.other"
+				if strings.Contains(crashOut, "zeebo/bencode") && strings.Contains(crashOut, "decodeList") {
+					cause = "stack-overflow.bencode-nesting"
+				}
 			}
 			if j.Kind == "deep" && (minCrashDepth < 0 || j.Depth < minCrashDepth) {
 				minCrashDepth = j.Depth
 			}
-			crash := r.Crash
 			ag.add("C08.crash."+cause, int64(r.ID), func() (string, any) {
-				return fmt.Sprintf("the process died while the reader (max message size %d = default MaxMetadataSize) read: %s; tail of its output: %s", realMax, what, lastLines(crash, 12)), jobs[r.ID]
+				return fmt.Sprintf("the process died while the reader (max message size %d = default MaxMetadataSize) read: %s; its output began: %s", realMax, what, firstLines(crashOut, 14)), jobs[r.ID]
 			})
 			ctr["process_deaths"]++
 			continue
@@ -868,6 +894,7 @@ func TestC08Reader(t *testing.T) {
 			}
 		}
 	}
+	os.RemoveAll(errDir)
 	if len(results) != len(jobs) {
 		core.HarnessError("got %d results for %d jobs", len(results), len(jobs))
 	}
@@ -900,10 +927,10 @@ func hexOrText(b []byte) string {
 	return string(b)
 }
 
-func lastLines(s string, n int) string {
+func firstLines(s string, n int) string {
 	ls := strings.Split(strings.TrimSpace(s), "\n")
 	if len(ls) > n {
-		ls = ls[len(ls)-n:]
+		ls = ls[:n]
 	}
 	return strings.Join(ls, " | ")
 }
